@@ -739,6 +739,9 @@ func execLine(input string) string {
 	if len(f) > 0 && f[0] == "cunreach" {
 		return execCUnreach(f)
 	}
+	if len(f) > 0 && f[0] == "shareconn" {
+		return execShareConn(f)
+	}
 	if len(f) > 0 && f[0] == "dial" {
 		return execDial(f)
 	}
@@ -931,6 +934,17 @@ func (Area) Gen(r *rand.Rand, tier string, emit func(string)) {
 		}
 	}()
 
+	// 0. short lines that must be reported even when a wait loop never ends: unreachable target with a deadline (idle.go),
+	// and removal of targets whose underlying client is already closed (dial.go, seeded C16-m11)
+	for _, l := range idleQ {
+		if strings.HasPrefix(l, "cunreach ") {
+			emit(l)
+		}
+	}
+	for _, l := range []string{"shareconn shared 0", "shareconn shared 1", "shareconn preclosed 0", "shareconn preclosed 1"} {
+		emit(l)
+	}
+
 	// 1. hand-written edge cases (the D17 witness first)
 	for _, h := range []string{
 		"A0f A0o G0", "A0f G0", "A0f A0f A0o R0 A0o", "A0o R0 A0o R0 A0o", "A0o A0o A0f A0p R0 R0",
@@ -998,7 +1012,9 @@ func (Area) Gen(r *rand.Rand, tier string, emit func(string)) {
 
 	// 1d'. the channel falls back to IDLE between two calls; unreachable target with a deadline (idle.go)
 	for _, l := range idleQ {
-		emit(l)
+		if !strings.HasPrefix(l, "cunreach ") {
+			emit(l)
+		}
 	}
 	// 1e. unreachable / dying targets through the real grpc.NewClient (dial.go)
 	for _, l := range dialQ {
